@@ -110,7 +110,13 @@ def convert(t, var_names, assms, to_real, ctx):
                 raise Z3Exception("convert: unsupported bound variable type " + repr(t.arg.var_T))
             return z3.Exists(z3_v, body)
         elif t.is_number():
-            return t.dest_number()
+            n = t.dest_number()
+            if t.get_type() == RealType:
+                return z3.RealVal(str(n), ctx)
+            elif t.get_type() in (NatType, IntType) and isinstance(n, int):
+                return z3.IntVal(n, ctx)
+            else:
+                raise Z3Exception("convert: unsupported number " + repr(t))
         elif t.is_implies():
             return z3.Implies(rec(t.arg1), rec(t.arg))
         elif t.is_equals():
